@@ -40,10 +40,10 @@ def plan(tier: str, seed: int, scale: float = 1.0, max_n_quick=14, max_n_thoroug
         for s in range(32):
             specs.append(("enum", 5, s, 32, 1, 0))
         for s in range(16):
-            specs.append(("canon", 6, s, 16, max(1, int(round(2 / scale))), 2, seed))
+            specs.append(("canon", 6, s, 16, max(1, int(round(4 / scale))), 2, seed))
         for s in range(16):
-            specs.append(("canon", 7, s, 16, max(1, int(round(60 / scale))), 2, seed))
-        ex = max(50, int(3000 * scale))
+            specs.append(("canon", 7, s, 16, max(1, int(round(150 / scale))), 2, seed))
+        ex = max(50, int(1000 * scale))
         for s in range(32):
             specs.append(("hyp", seed, s, ex, max_n_thorough))
         if corpus:
